@@ -79,6 +79,7 @@ def enumerate_cases(tier):
         for sel in selector_forms(names):
             for p in PROCS:
                 out.append({'proc': p, 'names': names, 'sel': sel})
+            out.append({'proc': 'load_tuple', 'names': names, 'sel': sel, 'seq_iters': True})
     return out
 
 
@@ -87,7 +88,7 @@ def drawn_case(draw):
     n = draw(st.integers(1, 4))
     names = draw(st.lists(st.sampled_from(gen.RES_NAMES), min_size=n, max_size=n, unique=True))
     sel = draw(st.sampled_from(selector_forms(names) + ['a.b', 'a.*b', '[ab].*', 'res_1.?', '.+b', 'a|ab|abc']))
-    return {'proc': draw(st.sampled_from(PROCS)), 'names': names, 'sel': sel}
+    return {'proc': draw(st.sampled_from(PROCS)), 'names': names, 'sel': sel, 'seq_iters': draw(st.booleans())}
 
 
 def cases(tier):
@@ -217,8 +218,14 @@ def check(case, ctx):
                 dp = write_package(pkg, ctx.tmpdir())
                 step = dataflows.load(dp, resources=copy.deepcopy(sel))
             else:
-                step = dataflows.load((gen.descriptor_of(pkg), [iter(copy.deepcopy(r['rows'])) for r in pkg]),
-                                      resources=copy.deepcopy(sel))
+                if case.get('seq_iters'):
+                    # iterators that all read from ONE underlying stream (what datastream().res_iter of a streaming
+                    # source gives): an unselected resource has to be skipped over, not just ignored
+                    from vlib.kernel import feed
+                    its = (rw.it for rw in feed(gen.descriptor_of(pkg), gen.tables_of(pkg), sequential=True).res_iter)
+                else:
+                    its = [iter(copy.deepcopy(r['rows'])) for r in pkg]
+                step = dataflows.load((gen.descriptor_of(pkg), its), resources=copy.deepcopy(sel))
             out_desc, out = run([step], base)
             got_names = [r['name'] for r in out_desc['resources']]
             exp_names = ['pre'] + [names[i] for i in idxs]
